@@ -36,7 +36,7 @@ func TestAvoid(t *testing.T) {
 		d := (&Gen{R: rand.New(rand.NewSource(seed)), Avoid: avoid}).Document("")
 		for _, f := range d.Features {
 			switch f {
-			case "import", "macro", "extends", "render-md-in-html":
+			case "import", "macro", "extends", "render-md-in-html", FeatureOpenEnded:
 			default:
 				t.Fatalf("seed %d: avoided construct %s was generated", seed, f)
 			}
